@@ -847,6 +847,10 @@ func (e *Engine) verify(fn *ssa.Function, opts VerifyOpts) (u *Unit) {
 			g := fr.evalBool(en, penv, exit, fr.entry)
 			u.oblige(nil, exit.clone(), "post", fmt.Sprintf("%d", i+1), g, token.NoPos, "ensures "+en.src)
 		}
+		for i, en := range ct.Checks {
+			g := fr.evalBool(en, penv, exit, fr.entry)
+			u.oblige(nil, exit.clone(), "post", fmt.Sprintf("c%d", i+1), g, token.NoPos, "checks "+en.src)
+		}
 	}
 	for _, ic := range ifcts {
 		ienv := fr.ifaceEnv(ic, fn, fr.entry)
